@@ -140,6 +140,10 @@ structure InitOK (rings : Adj) (db0 : List Nat) (c : Ctx) (levels : List Level) 
       bonds of one order -/
   cross : levels.Pairwise fun l l' => db0.contains c.start = false ∧
     ∀ e e', l = [e] → l' = [e'] → e.atom ≠ e'.atom ∧ e.bond = e'.bond
+  /-- the start atom is a key; unless it is in `double_bonded` there is a level for each of its neighbours -/
+  skey : ∃ ms, (c.start, ms) ∈ rings
+  all : db0.contains c.start = false → ∀ x ∈ nb c c.start, ∃ e0, [e0] ∈ levels ∧ e0.atom = x
+  one : db0.contains c.start = true → ∃ e0, [e0] ∈ levels
 
 theorem nbr_of_mem {rings : Adj} (G : GraphOK rings) {s : Nat} {ms : List Nat} (h : (s, ms) ∈ rings) :
     nbr rings s = ms := by
@@ -172,7 +176,7 @@ theorem initial_ok {rings : Adj} (G : GraphOK rings) {db0 : List Nat} {c : Ctx} 
       injection h with hc hlv
       subst hc hlv
       have hnb : nbr rings s = f :: tl := by simp [nbr, hl]
-      refine ⟨rfl, rfl, rfl, ?_, by simp⟩
+      refine ⟨rfl, rfl, rfl, ?_, by simp, ⟨_, lookup_mem hl⟩, by simp, fun _ => ⟨_, List.mem_singleton.2 rfl⟩⟩
       intro l hl'
       simp only [List.mem_singleton] at hl'
       subst hl'
@@ -191,7 +195,12 @@ theorem initial_ok {rings : Adj} (G : GraphOK rings) {db0 : List Nat} {c : Ctx} 
       simp only [List.contains_nil, Bool.not_false, Bool.and_true, beq_iff_eq] at hpred
       have hnb := nbr_of_mem G hmem
       have hms : ms.Nodup := hnb ▸ G.nodup s
-      refine ⟨rfl, rfl, rfl, ?_, levels_pairwise hms s 1 _ (by simp)⟩
+      have hall : ∀ x ∈ nbr rings s, ∃ e0 : Entry, [e0] ∈ (ms.map fun x => [(⟨x, s, 1, some 0⟩ : Entry)]).reverse ∧
+          e0.atom = x := by
+        intro x hx
+        rw [hnb] at hx
+        exact ⟨⟨x, s, 1, some 0⟩, by simp only [List.mem_reverse, List.mem_map]; exact ⟨x, hx, rfl⟩, rfl⟩
+      refine ⟨rfl, rfl, rfl, ?_, levels_pairwise hms s 1 _ (by simp), ⟨_, hmem⟩, fun _ => hall, by simp⟩
       · intro l hl'
         simp only [List.mem_reverse, List.mem_map] at hl'
         obtain ⟨x, hx, rfl⟩ := hl'
@@ -211,7 +220,12 @@ theorem initial_ok {rings : Adj} (G : GraphOK rings) {db0 : List Nat} {c : Ctx} 
         simp only [beq_iff_eq] at hpred
         have hnb := nbr_of_mem G hmem
         have hms : ms.Nodup := hnb ▸ G.nodup s
-        refine ⟨rfl, rfl, rfl, ?_, levels_pairwise hms s 1 _ (by simp)⟩
+        have hall : ∀ x ∈ nbr rings s, ∃ e0 : Entry, [e0] ∈ (ms.map fun x => [(⟨x, s, 1, some 0⟩ : Entry)]).reverse ∧
+            e0.atom = x := by
+          intro x hx
+          rw [hnb] at hx
+          exact ⟨⟨x, s, 1, some 0⟩, by simp only [List.mem_reverse, List.mem_map]; exact ⟨x, hx, rfl⟩, rfl⟩
+        refine ⟨rfl, rfl, rfl, ?_, levels_pairwise hms s 1 _ (by simp), ⟨_, hmem⟩, fun _ => hall, by simp⟩
         · intro l hl'
           simp only [List.mem_reverse, List.mem_map] at hl'
           obtain ⟨x, hx, rfl⟩ := hl'
@@ -230,7 +244,13 @@ theorem initial_ok {rings : Adj} (G : GraphOK rings) {db0 : List Nat} {c : Ctx} 
           subst hc hlv
           have hnb : nbr ((s, ms) :: tl) s = ms := nbr_of_mem G List.mem_cons_self
           · have hms : ms.Nodup := hnb ▸ G.nodup s
-            refine ⟨rfl, rfl, rfl, ?_, levels_pairwise hms s 2 _ (by simp)⟩
+            have hall : ∀ x ∈ nbr ((s, ms) :: tl) s, ∃ e0 : Entry,
+                [e0] ∈ (ms.map fun x => [(⟨x, s, 2, some 0⟩ : Entry)]).reverse ∧ e0.atom = x := by
+              intro x hx
+              rw [hnb] at hx
+              exact ⟨⟨x, s, 2, some 0⟩, by simp only [List.mem_reverse, List.mem_map]; exact ⟨x, hx, rfl⟩, rfl⟩
+            refine ⟨rfl, rfl, rfl, ?_, levels_pairwise hms s 2 _ (by simp), ⟨_, List.mem_cons_self⟩, fun _ => hall,
+              by simp⟩
             intro l hl'
             simp only [List.mem_reverse, List.mem_map] at hl'
             obtain ⟨x, hx, rfl⟩ := hl'
